@@ -29,10 +29,10 @@ CHECKS = {
     text='One check / one ping is executed from an arbitrary in-memory context (counter, times, interval symbolic at full width), which is the inductive step for histories of any length: counter and last-contact rules per error class, final announcements, persist+commit before return; the three context keys are written only by Context::persist from one context, and persist/load are inverse at microsecond precision for every context, so with the Storage contract (atomic commit) a crash at any instant leaves the last commit.',
     note=SM_NOTE + ' Storage implementations\' atomicity is assumed (trait contract).', design='4/C08', technique=PATHS),
  'C01': dict(
-    text='parse_etag is executed on every byte string up to 8 (quick) / 12 (thorough) bytes and equals the stripping rule with no panic. All paths of verify_response and verify_response_with_signature / make_transaction_hash are enumerated with SHA-256, hex, DER and ECDSA as abstract primitives: the check decides which values flow into which primitive (ETag split at the first colon, whole-value comparison of the decoded hash with SHA-256(retained request body), signature from the left part, key looked up by the key id ARGUMENT, digest composed as H(H(req)||H(resp)||"<id>:<nonce>") in this order), that every outcome maps to accept / its error class, and that the accepted signature is returned unchanged. StandardCupv2Handler::new is executed for 0-2 historical keys: every configured key is registered under its own id and the latest id is the one used for decoration.',
-    note='Trusted: sha2, hex, der, ecdsa/p256 primitives (abstract events; hash injectivity not assumed); HeaderValue::to_str model; rustc nightly MIR; z3. Outside: PEM (de)serialisation of PublicKeys, the real-SHA digest miter (Kani did not finish in the design probe).', design='4/C01', technique=PATHS),
+    text='parse_etag is executed on every byte string up to 8 (quick) / 12 (thorough) bytes and equals the stripping rule with no panic. All paths of verify_response and verify_response_with_signature / make_transaction_hash are enumerated with SHA-256, hex, DER and ECDSA as abstract primitives: the check decides which values flow into which primitive (ETag split at the first colon, whole-value comparison of the decoded hash with SHA-256(retained request body), signature from the left part, key looked up by the key id ARGUMENT, digest composed as H(H(req)||H(resp)||"<id>:<nonce>") in this order), that every outcome maps to accept / its error class, and that the accepted signature is returned unchanged. StandardCupv2Handler::new is executed for 0-2 historical keys: every configured key is registered under its own id and the latest id is the one used for decoration. The text form of the nonce is decided on the MIR of its Display (exactly hex::encode of the whole array). A deviation of the code from the recognised call structure counts as a violation only when the real verifier also mistreats one of 98 concrete exchanges produced by an independent signer (authentic ones in all ETag forms and key positions, and 22 single mutations each); otherwise it is inconclusive.',
+    note='Trusted: sha2, hex, der, ecdsa/p256 primitives (abstract events; hash injectivity not assumed); HeaderValue::to_str model; rustc nightly MIR; z3. Outside: PEM (de)serialisation of PublicKeys, the real-SHA digest miter (Kani did not finish in the design probe).', design='4/C01', technique=PATHS + '; structural findings confirmed natively against an independently written CUP signer'),
  'C03': dict(
-    text='All paths of StandardCupv2Handler::decorate_request (one fresh nonce, cup2key = format(latest key id, that nonce) appended to the parsed request URI and written back, metadata = body serialised from the same request + same id + same nonce, error mapping) and of RequestBuilder::build with and without a handler (the Intermediate decorated is the one converted into the HTTP request: decorated URI = request URI, body seen by the handler = body serialised for the wire, metadata returned = the handler\'s); fresh request id / constant session id per attempt from the attempt-loop exploration. build() is explored for every builder content (update check + ping, ping only, event only, empty): every kind of request is decorated. All paths of HttpUriExt::append_query_parameter with http::Uri operations as events: the URI is taken apart once, only its path-and-query is replaced by the parse of the correctly formatted text, scheme and authority are the original values; the real function is additionally run natively on 12 URL shapes (port, userinfo, IPv6 literal, query, relative).',
+    text='All paths of StandardCupv2Handler::decorate_request (one fresh nonce, cup2key = format(latest key id, that nonce) appended to the parsed request URI and written back, metadata = body serialised from the same request + same id + same nonce, error mapping) and of RequestBuilder::build with and without a handler (the Intermediate decorated is the one converted into the HTTP request: decorated URI = request URI, body seen by the handler = body serialised for the wire, metadata returned = the handler\'s); Nonce::new: 32 distinct random draws; nonce Display = hex of the whole array; on every path of the exchange function the configured handler is still configured afterwards; fresh request id / constant session id per attempt from the attempt-loop exploration. build() is explored for every builder content (update check + ping, ping only, event only, empty): every kind of request is decorated. All paths of HttpUriExt::append_query_parameter with http::Uri operations as events: the URI is taken apart once, only its path-and-query is replaced by the parse of the correctly formatted text, scheme and authority are the original values; the real function is additionally run natively on 12 URL shapes (port, userinfo, IPv6 literal, query, relative).',
     note=SM_NOTE + ' Outside: the http crate\'s own URL parsing/printing (events; validated natively on concrete URL shapes only), RNG quality.', design='4/C03', technique=PATHS),
  'C09': dict(
     text='Cohort::update_from_omaha for all present/empty/absent combinations and all strings; AppSetExt::update_from_omaha routing by app id for app sets and response lists up to 2x2 (quick) / 3x3 (thorough) with symbolic ids (duplicates and unknown ids occur); App::load fills exactly the unset fields for every stored record outcome; App::persist writes (cohort, user counting) under the app id; wire mapping of cohort and ping dates; update only on successful check/ping and before the apps are written to storage (start_update_check / ping_omaha explorations).',
@@ -47,19 +47,19 @@ CHECKS = {
     text='All paths of the tail of perform_update_check (after the attempt loop) are enumerated with the parse result, every response app\'s id/status/manifest, plan creation, the policy decision, each installer result, each report delivery and the reboot answer symbolic, for the stated app-set/response shapes (one installer result per offered app, plus a three-offer exploration for the per-app alignment): the announced states are exactly the ones the outcome calls for (iff table), the result lists the response apps in order with their own action; loop-error paths announce ErrorCheckingForUpdate once; run() announces Idle after each check with WaitingForReboot iff a reboot is pending. The iff direction and the per-app alignment hold on every path, which tests sample.',
     note=SM_NOTE, design='4/C04', technique=PATHS),
  'C05': dict(
-    text='run() and wait_for_reboot() are executed with the real select!/Fuse/join code under all arm orders and pending/ready choices (bounded): a check starts only right after a positive update_check_allowed of the same iteration with exactly its parameters; invalid app sets end the machine at once; perform_reboot only with a pending reboot and a positive most recent answer (reboot wait explored two rounds deep); the installer only after update_can_start == Ok on the created plan; all builders of a check use the policy\'s parameters; App::valid decided for all ids/versions.',
+    text='run() and wait_for_reboot() are executed with the real select!/Fuse/join code under all arm orders and pending/ready choices (bounded): a check starts only right after a positive update_check_allowed of the same iteration with exactly its parameters; invalid app sets end the machine at once; perform_reboot only with a pending reboot and a positive most recent answer (reboot wait explored two rounds deep); the installer only after update_can_start == Ok on the created plan; all builders of a check use the policy\'s parameters and the real RequestBuilder puts exactly the parameters it was given on the wire; App::valid decided for all ids/versions.',
     note=SM_NOTE, design='4/C05', technique=PATHS),
  'C10': dict(
     text='On every path of the tail of perform_update_check (same symbolic dimensions as C04) the sequence of report requests, the apps and events in each (type, result, error code, previous/next version), session id and fresh request id are exactly those the outcome calls for, lost-event metrics are counted exactly, reports are never retried, and delivery outcomes change neither states nor result (paths that differ only in delivery are compared).',
     note=SM_NOTE, design='4/C10', technique=PATHS),
  'C11': dict(
-    text='Every path of run()/wait_for_reboot() with up to 1 (quick) / 2 (thorough) control requests arriving at any select point (outer wait, during the check, reboot wait), timers pending or firing in any order: each request taken is answered exactly once before the next suspension, with Started/Throttled per the policy decision (asked with the request\'s options) or AlreadyRunning, and an on-demand request (during the check or the reboot wait) upgrades every later reboot question, and only such a request does.',
-    note=SM_NOTE + ' Outside: wake-up of a sleeping machine, dropped handles, StateMachineGone (channel internals).', design='4/C11', technique=PATHS),
+    text='Every path of run()/wait_for_reboot() with up to 1 (quick) / 2 (thorough) control requests arriving at any select point (outer wait, during the check, reboot wait), timers pending or firing in any order: each request taken is answered exactly once before the next suspension, with Started/Throttled per the policy decision (asked with the request\'s options) or AlreadyRunning, an on-demand request (during the check or the reboot wait) upgrades every later reboot question, and only such a request does; one arriving in the reboot wait is followed at once by the reboot question; and whenever the machine suspends while waiting or checking it has polled the control channel in that poll (so a request arriving then is seen).',
+    note=SM_NOTE + ' Outside: the waker mechanics of the channel itself, dropped handles, StateMachineGone (channel internals).', design='4/C11', technique=PATHS),
  'C12': dict(
     text='Every path of run()/wait_for_reboot() with both timers of a wait pending/firing in all orders: the policy timing is asked, stored and announced before every wait, exactly the timers it calls for are armed with exactly its values (a minimum wait of any length gets its timer), a scheduled check (and a ping) begins only after all timers of that wait fired (the real future::join/Fuse code is executed), the reboot question is re-asked only after its 30-minute timer or an on-demand request.',
     note=SM_NOTE, design='4/C12', technique=PATHS),
  'C14': dict(
-    text='Panic audit by exploration: every feasible path of the check, ping, report, exchange, persist/load and helper functions, and of run() with its start-up reads, is executed from arbitrary stored values, clock values, statuses and header bytes with overflow checks on; any reachable panic (overflow, unwrap, index, Vec::remove, time arithmetic) is a violation. Storage independence: with every storage write/commit allowed to fail, the set of observable (events, requests, installer calls) sequences equals the one with a working storage. Context::load total for all stored integers.',
+    text='Panic audit by exploration: every feasible path of the check, ping, report, exchange, persist/load and helper functions, and of run() with its start-up reads, is executed from arbitrary stored values, clock values, statuses and header bytes with overflow checks on; any reachable panic (overflow, unwrap, index, Vec::remove, time arithmetic) is a violation. Storage independence: with every storage write/commit allowed to fail, the set of observable (events, requests, installer calls) sequences equals the one with a working storage. Context::load total for all stored integers. parse_safe_json (the crate\'s code in front of serde_json) on every body up to 8 / 12 bytes: no panic, prefix stripped iff present. Every path of start_update_check, whatever the error class, ends with the three final announcements including the result.',
     note=SM_NOTE + ' Outside: totality of serde_json/http on arbitrary bytes, hangs; installer contract (one result per offered app).', design='4/C14', technique=PATHS),
  'C18': dict(
     text='report_waited_for_reboot_duration for all clock values (exact duration iff computable, else Err and no metric); record_update_first_seen_time and report_attempts_to_successful_install for all stored values and storage failures; finish time and system-app target version written and committed before reboot_needed on every install-ok path, nothing after a failure; run(): report iff finish time stored and target version == running version, with the duration measured to the first monotonic reading of this state machine whatever iteration the report succeeds in, keys removed+committed once after success; install attempts reported exactly for checks in which an app failed or was updated, as a success only if none failed.',
